@@ -192,6 +192,15 @@ class LifecycleScan(FiniteTask):
              sorted(sites) == [("acse.py", "_negotiate_as_acceptor", False), ("acse.py", "_negotiate_as_requestor", False)], detail=str(sorted(sites)))
 
 
+# The terminal outcomes of the negotiation (a refusal, an abort by either side, "accepted but no usable context") are notified by
+# ACSE._negotiate_as_requestor; that each is notified once, with its flag, and that the provider is then stopped in the way that
+# lets it finish - after an abort the REQUESTOR itself issued the association is killed (which waits for the provider to send the
+# A-ABORT, close the connection and notify EVT_CONN_CLOSE), not merely flagged to stop - is C11's call-site contract, borrowed
+RELABEL = {"C11/": "C27/negotiation:"}
+RELABEL_ONLY = {"C11/": r"ACSE\._negotiate_as_requestor/(no-accepted-context|a-refused-request-sets-its-flag|a-failed-connection-is-aborted|"
+                        r"ACCEPTED-then-ESTABLISHED|no-response-or-an-unexpected-primitive|only-an-accepted-response|the-request-is-sent-once|no-exception)"}
+
+
 class TerminalSitesScan(FiniteTask):
     """the terminal outcomes (released / aborted / rejected) are notified only by the functions whose contracts say "once per
     call, with the matching flags, then kill()": the two negotiation functions, negotiate_release, _abort_blocking and the
@@ -225,10 +234,15 @@ class TerminalSitesScan(FiniteTask):
 def tasks(tier):
     from contracts.assoc_abort import NegotiateReleaseTask, AbortTask
     ts = [SendTask(), StateWriterScan(), LifecycleScan(), recvpath.DecodeTask(), recvpath.DecodeFailTask(), TerminalSitesScan(),
-          NegotiateReleaseTask(), AbortTask("C27/"), _assoc_reactor()]
+          NegotiateReleaseTask(), AbortTask("C27/"), _assoc_reactor(), _requestor_site()]
     ts += [C04.ActionTask(a) for a in sorted(S.ACTIONS)]
     ts += [C04.DoActionTask(e) for e in S.EVENTS]
     return ts
+
+
+def _requestor_site():
+    from contracts.acse_neg import RequestorSiteTask
+    return RequestorSiteTask("C11/")
 
 
 def _assoc_reactor():
@@ -238,6 +252,9 @@ def _assoc_reactor():
 
 def replay(rec):
     from pyvc.replay import run_replay
+    oid = rec.get("id", "")
+    if oid.startswith("C27/negotiation:"):
+        return run_replay("C11", dict(rec, id="C11/" + oid[len("C27/negotiation:"):]))
     return run_replay("C27", rec)
 
 
